@@ -219,3 +219,12 @@ claim("C35", "structural rules over AST/CFG with mode specialisation: index-set 
       "pairs forward and adjoint with weights (1-w, w) and b clamped to shape-2; LinearInterpolator builds its matrix from ONE floor "
       "(base cell and excess), corner weights prod|1-c-e|, wrapped flat column index of base+corner, forward matvec / adjoint rmatvec. "
       "Line-of-sight integrals, non-uniform FFTs and all numerical accuracy are not decided.", TRUST, "DESIGN.md section 9.8")
+
+claim("C31", "per-dimension symbolic reading of the index maps and level recurrences (broadcast subscripts stripped), nesting identities decided on terms with sympy and a floor rule for 0 <= c < split; structural delegation check for the flat grid",
+      "Decides only the nesting clause of the dense periodic and open grids and the delegation structure of the flat grid: "
+      "parent(children(i)) = i, the children of the (refined) indices tile the next level, a child's centre lies at (c+1/2)/split of "
+      "its parent's cell, coord2index(index2coord(i)) = i, cell volumes add up under refinement, the level recurrences "
+      "shape(l+1) = split*(shape - 2*padding), shifts(l+1) = split*(shifts + padding) hand splits/paddings to the right levels, "
+      "and FlatGridAtLevel converts flat->index, delegates and converts back with level shift +1 / -1 / 0. HEALPix and logarithmic "
+      "grids, multi-grids, neighbourhood wrapping details, the mixed-radix flat index arithmetic and out-of-range handling are not decided.",
+      TRUST + " sympy 1.14 (offline wheelhouse) as algebraic normaliser.", "DESIGN.md section 9.8")
